@@ -595,6 +595,11 @@ def record_dedup(repo, col, R):
     """record() keeps one row per (rec_index, state): two different states recorded at one place are two rows."""
     fi = repo.method("Module", "record")
     exr = idx.expander(repo, fi)
+    # the rows added carry the requested state and the rows in view of its kind
+    stt = [s_ for s_ in exr.stores if s_.kind == "sub" and s_.key.op == "const" and s_.key.name == "state"]
+    if stt:
+        col.check(stt[-1].value.op == "param" and stt[-1].value.name == fi.params[1], R, fi, "record(state) records the requested state", "new_recs['state'] = state",
+                  f"the new rows are labelled {stt[-1].value.short(40)}", node=stt[-1].node)
     rs = [s_ for s_ in exr.stores if s_.kind == "attr" and s_.key.name == "recordings" and s_.value is not None]
     dedup, partial = False, None
     for s_ in rs:
